@@ -264,7 +264,7 @@ fn run(ctx: &Ctx, rep: &Report) {
     if let Ok(b) = std::fs::read(ctx.asset("test_assets/fixture_packages/rpm-empty-0-0.x86_64.rpm")) {
         pkgs.push(("asset-rpm-empty".into(), b));
     }
-    let extra = ctx.tier.pick(0, if ctx.is_dbg() { 20 } else { 150 });
+    let extra = ctx.tier.pick(0, if ctx.is_dbg() { 60 } else { 600 });
     let dir = ctx.work_dir("built");
     for i in 0..extra {
         let mut r = Rng::for_case(ctx.seed, "C14-built", i);
